@@ -653,6 +653,11 @@ func c20Expected(d *c20Doc) c20Spec {
 				}
 				codeYoung := gap*4 < 16*1461
 				codeOld := gap*4 > 100*1461
+				if gap > 105000 { // beyond ~287 years time.Duration saturates: outside the stated domain, decided by the correspondence only
+					s.Unclear[fmt.Sprintf("MarriedOutOfRange F%d I%d young", f.Ptr, p)] = true
+					s.Unclear[fmt.Sprintf("MarriedOutOfRange F%d I%d old", f.Ptr, p)] = true
+					continue
+				}
 				ky := fmt.Sprintf("MarriedOutOfRange F%d I%d young", f.Ptr, p)
 				ko := fmt.Sprintf("MarriedOutOfRange F%d I%d old", f.Ptr, p)
 				if civilYoung != codeYoung {
@@ -688,9 +693,9 @@ func c20Expected(d *c20Doc) c20Spec {
 var (
 	c20ChildOffsets   = []int{-9000, -2000, -30, -3, -1, 0, 1, 3, 5000, 6500, 7300, 9000, 10950, 14000, 16000}
 	c20SiblingGaps    = []int{0, 0, 1, 1, 2, 2, 3, 30, 150, 272, 273, 273, 274, 274, 275, 400, 800, 2000, -1, -2, -3, -100, -273, -274}
-	c20LifeYears      = []int{0, 1, 30, 60, 85, 99, 100, 100, 101, 110}
+	c20LifeYears      = []int{0, 1, 30, 60, 85, 99, 100, 100, 101, 110, -100, -101, -130, -200, -290}
 	c20LifeDayOffsets = []int{-200, -30, -3, 3, 30, 200}
-	c20MarrYears      = []int{-101, -100, -17, -16, -5, 10, 15, 16, 16, 17, 25, 40, 60, 99, 100, 100, 101, 110}
+	c20MarrYears      = []int{-250, -150, -101, -100, -17, -16, -15, -5, 10, 15, 16, 16, 17, 25, 40, 60, 99, 100, 100, 101, 110}
 	c20MarrDayOffsets = []int{-200, -30, -3, 3, 30, 200}
 	c20MarrExactDays  = []int{5843, 5844, 5845, 36524, 36525, 36526, -5843, -5844, -5845, -36525, -36526}
 	c20OtherIndiTags  = []string{"RESI", "OCCU", "EVEN", "CHR", "CENS", "GRAD"}
@@ -893,6 +898,11 @@ func c20Generate(r *Rand, maxPeople int, style string) (*c20Doc, map[string]int)
 			off := int64(30 + r.Intn(300))
 			if style != "clean" && r.Chance(1, 4) {
 				off = int64(c20Pick(r, []int{-400, -10, -1, 0, 1}))
+				// a baptism long before the birth, only when a dated BIRT keeps it out of the
+				// estimated birth (otherwise the lifespan would pass 292 years: platform-defined)
+				if _, _, dated := c20First(p, "BIRT"); dated && r.Chance(1, 3) {
+					off = int64(c20Pick(r, []int{-36600, -47000, -90000}))
+				}
 			}
 			tag := "BAPM"
 			if r.Chance(1, 4) {
@@ -1014,6 +1024,86 @@ func c20Generate(r *Rand, maxPeople int, style string) (*c20Doc, map[string]int)
 		c20ShuffleRecs(r, d)
 	}
 	return d, g.labels
+}
+
+// c20InjectLongBefore puts one large inversion into an otherwise clean document: a death, a burial
+// or a baptism recorded 100..290 years BEFORE the birth, or a marriage recorded long before a
+// spouse's birth on either side of 16 / 100 x 365.25 days (the code takes the absolute difference).
+// Returns what was injected ("" when the document offers no place for it).
+func c20InjectLongBefore(r *Rand, d *c20Doc) string {
+	var people []*c20Indi
+	for _, rec := range d.Recs {
+		if rec.I != nil {
+			if _, ok, _ := c20First(rec.I, "BIRT"); ok {
+				people = append(people, rec.I)
+			}
+		}
+	}
+	if len(people) == 0 {
+		return ""
+	}
+	back := func(b c20Date) int64 {
+		y := c20Pick(r, []int{100, 100, 101, 110, 130, 170, 200, 250, 290})
+		return c20AddYears(b, -y) + int64(c20Pick(r, []int{-200, -3, 0, 3, 200}))
+	}
+	strip := func(p *c20Indi, kinds ...string) {
+		var evs []c20Ev
+		for _, e := range p.Events {
+			keep := true
+			for _, k := range kinds {
+				if e.Kind == k {
+					keep = false
+				}
+			}
+			if keep {
+				evs = append(evs, e)
+			}
+		}
+		p.Events = evs
+	}
+	p := people[r.Intn(len(people))]
+	eb, _, _ := c20Est(p, []string{"BIRT"})
+	kind := r.Intn(4)
+	what := ""
+	switch kind {
+	case 0:
+		strip(p, "DEAT", "BURI")
+		p.Events = append(p.Events, c20Ev{Kind: "DEAT", Tag: "DEAT", Dates: []c20Date{c20OK(r, back(eb))}})
+		what = "death-long-before-birth"
+	case 1:
+		strip(p, "DEAT", "BURI")
+		p.Events = append(p.Events, c20Ev{Kind: "BURI", Tag: "BURI", Dates: []c20Date{c20OK(r, back(eb))}})
+		what = "burial-long-before-birth"
+	case 2:
+		strip(p, "BAPM", "BAPL")
+		p.Events = append(p.Events, c20Ev{Kind: "BAPM", Tag: "BAPM", Dates: []c20Date{c20OK(r, back(eb))}})
+		what = "baptism-long-before-birth"
+	default:
+		for _, rec := range d.Recs {
+			f := rec.F
+			if f == nil || (f.Husb != p.Ptr && f.Wife != p.Ptr) {
+				continue
+			}
+			var day int64
+			if r.Bool() {
+				day = eb.day() - int64(c20Pick(r, []int{5000, 5843, 5844, 5845, 6200, 36000, 36524, 36525, 36526, 37000, 60000, 90000}))
+			} else {
+				day = c20AddYears(eb, -c20Pick(r, []int{15, 16, 17, 99, 100, 101, 150, 250})) + int64(c20Pick(r, []int{-3, 3}))
+			}
+			var evs []c20Ev
+			for _, e := range f.Events {
+				if e.Kind != "MARR" {
+					evs = append(evs, e)
+				}
+			}
+			f.Events = append(evs, c20Ev{Kind: "MARR", Tag: "MARR", Dates: []c20Date{c20OK(r, day)}})
+			f.merge = c20Merge(r, len(f.Chil), len(f.Events))
+			what = "marriage-long-before-birth"
+			break
+		}
+	}
+	p.merge = c20Merge(r, len(p.Sexes), len(p.Events))
+	return what
 }
 
 func c20ShuffleRecs(r *Rand, d *c20Doc) {
@@ -1268,7 +1358,7 @@ func c20Run(c *Ctx, d *c20Doc, labels map[string]int, style string, permute bool
 
 func init() {
 	runners["C20"] = func(c *Ctx) {
-		c.Rule = "family-graph documents (0..40 people, 0..n families, several families per person) with exact-day or unparsable dates, all in the past (births 1745-1895, everything before 2022, span < 290 years); relationships drawn a few days either side of every threshold plus the exact thresholds; every document also in a shuffled order; distinct = (set of warning kinds reported, number of warnings)"
+		c.Rule = "family-graph documents (0..40 people, 0..n families, several families per person) with exact-day or unparsable dates, all in the past (births 1745-1895, everything before 2022, span < 290 years); relationships drawn a few days either side of every threshold plus the exact thresholds; large inversions (death, burial, baptism 100..290 years before the birth, marriage long before a spouse's birth on both sides of 16 and 100 x 365.25 days) alone in an otherwise clean document and combined with other faults; every document also in a shuffled order; distinct = (set of warning kinds reported, number of warnings)"
 		c.Notes = append(c.Notes,
 			"assumption: all dates are at least four years before time.Now(); today's date is an explicit input of the model",
 			"assumption: no two dates of a document are more than 290 years apart (time.Duration saturates at ~292 years; the model has the saturation, the generator does not reach it)",
@@ -1284,12 +1374,23 @@ func init() {
 				style = "faulty"
 			case 4, 5, 6:
 				style = "general"
+			case 7:
+				style = "longbefore"
 			}
 			mp := maxPeople
 			if k%17 == 0 {
 				mp = 40
 			}
-			d, labels := c20Generate(c.R, mp, style)
+			gstyle := style
+			if style == "longbefore" {
+				gstyle = "clean" // one large inversion is the only fault of the document
+			}
+			d, labels := c20Generate(c.R, mp, gstyle)
+			if style == "longbefore" {
+				if what := c20InjectLongBefore(c.R, d); what != "" {
+					c.Count("inject=" + what)
+				}
+			}
 			c20Run(c, d, labels, style, true)
 			if k%10 == 9 {
 				b, bl := c20Boundary(c.R)
